@@ -240,12 +240,22 @@ def mask_filter(eng, base, mask):
     and rho (in pos -> out pos)."""
     used(eng, "boolean-mask-filter-keeps-order")
     _len_eq(eng, base, mask, "boolean index")
-    out = SArr.fresh(base.kind, name="flt")
     I = z3.IntSort()
+    ck = ("filter", mask.arr.get_id(), z3.simplify(mask.nz()).get_id())
+    cached = eng.ghost.get(ck)
     tag = fresh_name("m")
+    k, k2, i = z3.Ints(f"k_{tag} k2_{tag} i_{tag}")
+    if cached is not None:
+        # the same mask selects the same positions: share kappa / rho / length
+        kappa, rho, mlen = cached
+        out = SArr.fresh(base.kind, mlen, name="flt")
+        eng.assume(z3.ForAll([k], z3.Implies(z3.And(k >= 0, k < out.nz()), out.get(k).z == base.get(kappa(k)).z)))
+        out.kappa, out.rho, out.src, out.mask = kappa, rho, base, mask
+        return out
+    out = SArr.fresh(base.kind, name="flt")
     kappa = z3.Function("kappa_" + tag, I, I)
     rho = z3.Function("rho_" + tag, I, I)
-    k, k2, i = z3.Ints(f"k_{tag} k2_{tag} i_{tag}")
+    eng.ghost[ck] = (kappa, rho, out.n)
     n, m = base.nz(), out.nz()
     eng.assume(z3.And(m >= 0, m <= n))
     eng.assume(z3.ForAll([k], z3.Implies(z3.And(k >= 0, k < m), z3.And(kappa(k) >= 0, kappa(k) < n, mask.get(kappa(k)).z, out.get(k).z == base.get(kappa(k)).z, rho(kappa(k)) == k))))
@@ -408,6 +418,7 @@ def symbolic_comprehension(eng, n, fr, kind, first):
     nz = length.z if isinstance(length, Sym) else zint(length)
     saved = list(eng.pc)
     eng.pc.append(z3.And(i >= 0, i < nz))
+    eng.pure_mode = getattr(eng, "pure_mode", 0) + 1
     try:
         if kind == "dict":
             kv = eng.ev(n.key, sub)
@@ -415,6 +426,7 @@ def symbolic_comprehension(eng, n, fr, kind, first):
         else:
             vv = eng.ev(n.elt, sub)
     finally:
+        eng.pure_mode -= 1
         new = eng.pc[len(saved) + 1 :]
         eng.pc = saved
         # facts assumed while evaluating the element (e.g. proved bounds) are
@@ -469,7 +481,8 @@ def _dict_from_pairs(eng, i, nz, kv, vv):
     x, j = z3.Ints(f"x_{tag} j_{tag}")
     inr = lambda t: z3.And(t >= 0, t < nz)
     eng.assume(z3.ForAll([x], z3.Select(d.dom, x) == z3.And(inr(last(x)), z3.Select(key_at, last(x)) == x)))
-    eng.assume(z3.ForAll([j], z3.Implies(inr(j), z3.And(inr(last(z3.Select(key_at, j))), last(z3.Select(key_at, j)) >= j))))
+    eng.assume(z3.ForAll([j], z3.Implies(inr(j), z3.And(inr(last(z3.Select(key_at, j))), last(z3.Select(key_at, j)) >= j,
+                                                         z3.Select(key_at, last(z3.Select(key_at, j))) == z3.Select(key_at, j)))))
     eng.assume(z3.ForAll([x], z3.Implies(z3.Select(d.dom, x), z3.Select(d.val, x) == z3.Select(val_at, last(x)))))
     d.last, d.key_at = last, key_at
     return d
